@@ -9,8 +9,8 @@ CONSTANTS
   PoolVal <- PoolNoneVal
   Maturity = 3
   Flags = {"badRoot", "badSize", "badKernelRoot"}
-  MaxDeliveries = 16
-  HeadersFirst = FALSE
+  MaxDeliveries = 20
+  HeadersFirst = TRUE
   SimProfile = "orphans"
   TxShapes = "none"
 INVARIANTS Emit
